@@ -110,7 +110,7 @@ def classify_death(stderr_text, exit_code, timed_out):
         dump = t[i:] if i >= 0 else t
         gs = parse_goroutines(dump)
         eng = [g for g in gs if first_engine_frame(g["frames"], harness_ok=True)]
-        structural = bool(eng) and all(g["state"] in BLOCKED_STATES and not any("time." in f for f in g["frames"]) for g in eng)
+        structural = bool(eng) and all(g["state"] in BLOCKED_STATES and not any(f.startswith("time.") for f in g["frames"]) for g in eng)
         if structural:
             info.update(kind="deadlock", key="deadlock@" + deadlock_signature(gs), detail=dump[:8000])
         else:
@@ -147,6 +147,23 @@ class Runner:
         self.nbatch = 0
         self.lock = threading.Lock()
         self.race_reports = []
+
+    CANARY_WF = """version: v0.2.0
+input: {root: RootObject, objects: {RootObject: {id: RootObject, properties: {}}}}
+steps:
+  w: {plugin: {src: canary_w, deployment_type: scripted}, input: {tag: x}}
+outputs:
+  success: {t: !expr "$.steps.w.outputs.success.tag"}
+"""
+
+    def hang_oracle_works(self):
+        """Canary: a run whose only output waits for a never-ending step must be reported by the Go runtime as
+        'all goroutines are asleep - deadlock!'. If it is not (for example because the binary was linked with cgo),
+        the hang oracle is blind and every check relying on it must fail as broken rather than pass."""
+        case = {"id": "hang-oracle-canary", "files": {"workflow.yaml": self.CANARY_WF}, "scripts": {"canary_w": {"exec": {"outcome": "hang"}}}, "runs": [{"input": {}}], "no_events": True}
+        o = self.run_cases([case], per_case_timeout=15, jobs=1).get("hang-oracle-canary", {})
+        d = o.get("death") or {}
+        return d.get("kind") == "deadlock" and d.get("exit_code") == 2
 
     def close(self):
         if self.own:
